@@ -1031,8 +1031,8 @@ def check(rep, tier, seed, variant="hooks", n_sre=None, n_ex=None):
         add("plain", e, "P-ex6", 0)
 
     jobs = R.JOBS
-    bulk = run_items(b, header, items[:ex_start], 25, 90 if quick else 240, jobs)
-    exh = run_items(b, header, items[ex_start:], 3, 90 if quick else 240, jobs) if n_ex else []
+    bulk = run_items(b, header, items[:ex_start], 25, 120 if quick else 300, jobs)
+    exh = run_items(b, header, items[ex_start:], 3, 120 if quick else 300, jobs) if n_ex else []
     slow_out = []
     if not quick:
         slow_items = []
